@@ -14,6 +14,7 @@ Delivery-target part (remote, target.lmtp over smtpconn):
     the traces are validated against RcptStatusTrace.tla.
 Pipeline part (msgpipeline statusCollector): PipeStatus.tla, see run_pipeline.
 """
+import concurrent.futures
 import json
 import os
 
@@ -191,23 +192,26 @@ def run_targets(ctx, replay_obj, binary, known, thorough, skip_mc):
                                           data=("ok", "perm"), gen=True, tail=GEN_TAIL)),
                       ("gen-lists", cfg(rcpts=ALL_RCPTS, maxlist=2, maxtxns=1, data=("ok", "temp"),
                                         gen=True, tail=GEN_TAIL))]
-        for name, text in focus:
-            g = ctx.tlc("RcptStatus", None, name=name, workers=4, timeout=1800, cfg_text=text, heap="3g")
+        n = 5000 if thorough else 400
+        jobs = [(name, dict(workers=2, timeout=1800, cfg_text=text, heap="3g")) for name, text in focus]
+        jobs.append(("sim", dict(workers=1, timeout=1800, simulate=n, depth=80, heap="3g",
+                                 cfg_text=cfg(maxlist=3, maxtxns=4, gen=True, tail=GEN_TAIL))))
+        # independent TLC runs: side by side
+        with concurrent.futures.ThreadPoolExecutor(max_workers=len(jobs)) as ex:
+            futs = {name: ex.submit(ctx.tlc, "RcptStatus", None, name=name, **kw) for name, kw in jobs}
+            res = {name: f.result() for name, f in futs.items()}
+        for name, _ in jobs:
+            g = res[name]
             if not g["ok"]:
                 raise vlib.Infra("behaviour generation %s failed: %s %s" % (name, g["invariant"], g["error"]))
             got = behaviours_from(g)
-            ctx.cov["exhaustive_" + name] = len(got)
+            if name != "sim":
+                ctx.cov["exhaustive_" + name] = len(got)
             if name == "gen-lmtp-drop":     # keep the behaviours in which the break really happens
                 got = [b for b in got if b["txns"][0]["plan"]["drop"] < len(b["txns"][0]["rcpts"])]
-            if not thorough and len(got) > 400:
-                got = vlib.sample(ctx.rng, got, 400)
+            if name != "sim" and not thorough and len(got) > 300:
+                got = vlib.sample(ctx.rng, got, 300)
             behs += got
-        n = 5000 if thorough else 500
-        g = ctx.tlc("RcptStatus", None, name="sim", workers=1, timeout=1800, simulate=n, depth=80, heap="3g",
-                    cfg_text=cfg(maxlist=3, maxtxns=4, gen=True, tail=GEN_TAIL))
-        if not g["ok"]:
-            raise vlib.Infra("behaviour simulation failed: %s %s" % (g["invariant"], g["error"]))
-        behs += behaviours_from(g)
         behs = dedup(behs)
         if not behs:
             raise vlib.Infra("TLC produced no behaviours")
